@@ -4,7 +4,7 @@
    signals with a value table, the kind only; the full statement is
    Acme.C10.Proofs.import_signal_faithful_full_statement. *)
 From Coq Require Import String ZArith List.
-From Acme.C10 Require Import DbcDoc BusModel Import Bits BitsProofs Proofs ProofsEnum ProofsLayout ProofsFaithful ProofsMux ProofsExtMux ProofsDecode ProofsIds ProofsEnumMux ProofsAttrs ProofsAttrsAll ProofsTraverse ProofsAttrsSig ProofsExtAbs ProofsGroups ProofsDecodeMux ProofsAttrsExact.
+From Acme.C10 Require Import DbcDoc BusModel Import Bits BitsProofs Proofs ProofsEnum ProofsLayout ProofsFaithful ProofsMux ProofsExtMux ProofsDecode ProofsIds ProofsEnumMux ProofsAttrs ProofsAttrsAll ProofsTraverse ProofsAttrsSig ProofsExtAbs ProofsGroups ProofsDecodeMux ProofsAttrsExact ProofsSigMap ProofsAttrsSigExact.
 Import ListNotations.
 Open Scope Z_scope.
 
@@ -249,6 +249,20 @@ Theorem import_node_message_attributes_exact : forall d b, import d = Ok b ->
                      mfields m = fold_left (fld_step amap (m_canid m)) (d_attrvals d) (0, 0, 0, 0)) (b_messages b).
 Proof. exact ProofsAttrsExact.import_node_message_attributes_exact. Qed.
 Print Assumptions import_node_message_attributes_exact.
+
+(* attribute data of SIGNALS, exactly, at every multiplexing depth: the user assignments of an imported signal are
+   the BA_ SG_ lines whose CAN-ID is its message's and whose signal name is its name (attribute not a well-known
+   one), in file order, read with `attr_value` under the imported definition, kept when conforming, a later line of
+   one attribute replacing the earlier (`sig_step`); its start value and send type (`sfields`) start at 0 and are set
+   by the lines with the well-known names GenSigStartValue (decimal or integer value) and GenSigSendType (label),
+   the last one winning (`sfld_step`).  Rests on the importer's signals map being complete - every signal of the
+   file is registered under (CAN-ID, name) in all three cases of importMessage (ProofsSigMap) - and sound *)
+Theorem import_signal_attributes_exact : forall d b, import d = Ok b ->
+  exists amap, def_map d = Ok amap /\
+    Forall (fun m => Forall (fun s => s_attrs s = fold_left (sig_step amap (m_canid m) (s_name s)) (d_attrvals d) [] /\
+                                      sfields s = fold_left (sfld_step amap (m_canid m) (s_name s)) (d_attrvals d) (fl_zero, 0)) (m_signals m)) (b_messages b).
+Proof. exact ProofsAttrsSigExact.import_signal_attributes_exact. Qed.
+Print Assumptions import_signal_attributes_exact.
 
 (* layout validity INSIDE multiplexers, every message, every nesting depth: two children of one multiplexer
    that share a group (a child without group list is fixed and shares every group) do not overlap, every
